@@ -7,7 +7,7 @@ from sa.spec import avro_wire as spec
 from .common import analysis, W_NAMES, R_NAMES, K_NAMES, norm_guard, renumber, str_consts_compared, tokens
 
 PROP = "C01"
-TECHNIQUE = "dispatch-table symmetry + wire-shape (token term) agreement writer/reader/skipper against the spec grammar; stream-access census"
+TECHNIQUE = "dispatch-table symmetry + wire-shape (token term) agreement writer/reader/skipper against the spec grammar; stream-access census; shared provenance rules of C02 (length / index / branch / default sources)"
 LEVEL_TEXT = (
     "Static analysis: for every Avro type the token term the writer emits, the term the reader consumes and the term the "
     "skipper consumes are extracted from the syntax tree and compared with each other and with the frozen specification "
